@@ -2,6 +2,7 @@ package modifiers
 
 import (
 	"encoding/json"
+	"slices"
 
 	"github.com/nyaruka/gocommon/urns"
 	"github.com/nyaruka/goflow/assets"
@@ -48,9 +49,10 @@ func NewURNs(urnz []urns.URN, modification URNsModification) *URNsModifier {
 // Apply applies this modification to the given contact
 func (m *URNsModifier) Apply(eng flows.Engine, env envs.Environment, sa flows.SessionAssets, contact *flows.Contact, log flows.EventCallback) bool {
 	modified := false
+	oldURNs := contact.URNs().RawURNs()
 
 	if m.Modification == URNsSet {
-		modified = contact.ClearURNs()
+		contact.ClearURNs()
 	}
 
 	for _, urn := range m.URNs {
@@ -69,6 +71,11 @@ func (m *URNsModifier) Apply(eng flows.Engine, env envs.Environment, sa flows.Se
 				}
 			}
 		}
+	}
+
+	// setting replaces the whole list so it's only a change if the new list is actually different
+	if m.Modification == URNsSet {
+		modified = !slices.Equal(oldURNs, contact.URNs().RawURNs())
 	}
 
 	if modified {
